@@ -29,14 +29,72 @@ from pyvc import props as PR  # noqa: E402
 def _task(args):
     name, cfg, facets, tier = args
     K = ct.REGISTRY[name]
+    tl = os.environ.get("PYVC_TASKLOG")
+    if tl:
+        with open(tl, "a") as f:
+            f.write("start %d %s %r\n" % (os.getpid(), name, cfg))
+    t0 = time.time()
     try:
         r = verify.run_config(K, cfg, facets=facets, tier=tier)
+        if tl:
+            with open(tl, "a") as f:
+                f.write("end %d %.1fs %s %r\n" % (os.getpid(), time.time() - t0, name, cfg))
     except BaseException as e:  # noqa
         r = dict(function=name, cfg=verify._cfg_repr(cfg), obligations=[], paths=0, normal_paths=0, raise_paths=0,
                  engine_errors=["worker: %s: %s\n%s" % (type(e).__name__, e, traceback.format_exc()[-1200:])],
                  stubs=[], sig=None, solver_s=0.0, wall_s=0.0)
     r["cfg_raw"] = cfg
     return r
+
+
+def _child(conn, task):
+    try:
+        conn.send(_task(task))
+    finally:
+        conn.close()
+
+
+def _failed(task, why):
+    name, cfg, facets, tier = task
+    return dict(function=name, cfg=verify._cfg_repr(cfg), cfg_raw=cfg, obligations=[], paths=0, normal_paths=0, raise_paths=0,
+                engine_errors=[why], stubs=[], sig=None, solver_s=0.0, wall_s=0.0)
+
+
+def run_tasks(tasks, jobs, tier):
+    """One fresh forked process per task (verdicts must not depend on what a worker ran before), at most `jobs`
+    at a time, each under a hard wall-clock limit: a solver call that ignores its own timeout (observed: z3's
+    diophantine module on huge coefficients) is killed and reported as `cannot analyse`, it cannot hang the check."""
+    from multiprocessing.connection import wait
+    hard_s = float(os.environ.get("PYVC_TASK_HARD_S", "600" if tier == "quick" else "2400"))
+    ctx = mp.get_context("fork")
+    results = [None] * len(tasks)
+    pending = list(enumerate(tasks))[::-1]
+    running = {}
+    while pending or running:
+        while pending and len(running) < jobs:
+            i, t = pending.pop()
+            rd, wr = ctx.Pipe(duplex=False)
+            p = ctx.Process(target=_child, args=(wr, t))
+            p.start()
+            wr.close()
+            running[i] = (p, rd, time.time())
+        ready = wait([v[1] for v in running.values()], timeout=1.0)
+        for i, (p, rd, t0) in list(running.items()):
+            if rd in ready:
+                try:
+                    results[i] = rd.recv()
+                except (EOFError, OSError):
+                    results[i] = _failed(tasks[i], "worker process ended without a result")
+                rd.close()
+                p.join()
+                del running[i]
+            elif time.time() - t0 > hard_s:
+                p.kill()
+                p.join()
+                rd.close()
+                results[i] = _failed(tasks[i], "hard time limit of %.0fs per (function, configuration) exceeded; task killed" % hard_s)
+                del running[i]
+    return results
 
 
 def file_hashes():
@@ -111,10 +169,7 @@ def main(argv=None):
         for cfg in K.configs(tier):
             if PR.cfg_relevant(prop, K, cfg):
                 tasks.append((K.name, cfg, facets, tier))
-    ctx = mp.get_context("fork")
-    # one fresh forked process per task: verdicts must not depend on which tasks a worker ran before
-    with ctx.Pool(min(a.jobs, max(1, len(tasks))), maxtasksperchild=1) as pool:
-        results = pool.map(_task, tasks, chunksize=1)
+    results = run_tasks(tasks, a.jobs, tier)
 
     # A failed frame obligation means the per-call pre-states no longer cover what the API can produce.  Search
     # the pre-states reachable through one earlier call of the same function for a failing input (pyvc/history.py).
@@ -131,8 +186,7 @@ def main(argv=None):
                     fac = next(f for K, f in sel if K.name == r["function"])
                     hist_tasks.append((r["function"], dict(r["cfg_raw"], _history=kind), fac, tier))
     if hist_tasks:
-        with ctx.Pool(min(a.jobs, len(hist_tasks)), maxtasksperchild=1) as pool:
-            hres = pool.map(_task, hist_tasks, chunksize=1)
+        hres = run_tasks(hist_tasks, a.jobs, tier)
         for r in hres:
             # canaries and coverage were settled by the plain configurations
             r["obligations"] = [ob for ob in r["obligations"] if not ob.get("canary") and not ob["name"].startswith(("cover.", "canary"))]
